@@ -1,4 +1,5 @@
 HOOK_COMMITS = ["3faef0c", "9006d07", "298300c"]
+FIX_COMMITS = ["d8c81bf", "eed55ce"]
 
 NOT_APPLICABLE = {}
 
@@ -22,5 +23,23 @@ META = {
             "note": _SIM_NOTE + " -f/-C/builddir argument handling lives in the binary and is exercised by the black-box stage when present."},
     "C19": {"engine": "sim", "technique": "invariant hook at every scheduler iteration and Progress callback, cross-checked with the executor's event stream",
             "text": "Every loop iteration of every execution contributes an observation: counts vs per-step states vs executor running set; final task count vs successful completions.",
+            "note": _SIM_NOTE},
+    "C02": {"engine": "sim", "technique": "reference-model oracle over generated edit/build histories run through the real code with a scripted executor; clean-build content comparison",
+            "text": "After every successful invocation of ~10^5 generated histories per quick run the content of each requested output is compared with the reference model's from-scratch content, and the started set must contain every step the model's dirty rule marks (with the reason reported).",
+            "note": _SIM_NOTE},
+    "C03": {"engine": "sim", "technique": "exact run-set comparison against an independent model of the manifest dirty rule, per invocation of generated histories; no-op rebuild and restat episodes",
+            "text": "The started set of every invocation must equal the model's prediction; the model is the property's sentence (record applicability, missing files, recorded names/mtimes/command/rspfile) and shares no code with n2.",
+            "note": _SIM_NOTE},
+    "C07": {"engine": "sim", "category": "fault_enumeration", "technique": "fault injection at every db append x byte count (hook in front of write), recovery checked by reference model + independent log reader",
+            "text": "Per generated history every log write of the abandoned build and (thorough: every, quick: most) byte counts 0..len are enumerated; the next two invocations are compared with the model whose record store contains exactly the completely written records, and the file is re-read by an independent parser.",
+            "note": _SIM_NOTE + " Crash = unwinding out of n2 at the write (Drop handlers run, nothing else); reordered/lost earlier writes (no fsync) are not modelled."},
+    "C08": {"engine": "sim", "technique": "round-trip monitor (what n2 loads per step vs an independent reader's latest applicable record) + exact run-set oracle over manifest-rewrite histories",
+            "text": "Record shapes up to 70000 deps / 40 outputs / 3900-byte non-ASCII names and histories of semantics-preserving rewrites and output moves; the >= 65536-dep overflow is a recorded known finding (F2).",
+            "note": _SIM_NOTE},
+    "C09": {"engine": "sim", "technique": "exact run-set oracle over histories that change the reported dependency set; recorded dep lists decoded from log writes",
+            "text": "The model keeps, per step, the canonicalised de-duplicated dep list of the last successful run and replaces it wholesale; every invocation's started set and every written record's dep list are compared.",
+            "note": _SIM_NOTE + " showIncludes filtering and depfile parsing are function-level checks (pure stage / C15)."},
+    "C17": {"engine": "sim", "technique": "trace monitor keyed on the reload event + per-phase run-set oracle over manifest generations",
+            "text": "Generator steps rewrite the manifest to the next generation inside the executor; per phase, started sets, the reload decision and the graph loaded after the reload are compared with the model of old/new generation.",
             "note": _SIM_NOTE},
 }
